@@ -376,6 +376,32 @@ func (tn *Town) install() {
 				p.BodyLinks = []string{"https://media.example/gm"}
 			}
 		}
+		if tn.Opts.Hostile && t.Chance(1, 3) {
+			// hostile strings under the vocabulary servitor does not read today, some of it standing in
+			// for what it does read (text only in the natural-language maps, a source, a preview): if
+			// any of it is ever shown, it is shown clean
+			hb := func() string { return hostileBits[t.Draw(len(hostileBits))] }
+			lang := Doc{"en": "map text " + hb() + " <b" + hb() + ">x</b> " + hostileRefs[t.Draw(len(hostileRefs))], "de": hb()}
+			d["contentMap"], d["summaryMap"], d["nameMap"] = lang, lang, Doc{"en": "title " + hb()}
+			d["source"] = Doc{"content": "src " + hb(), "mediaType": "text/markdown"}
+			d["preview"] = Doc{"type": "Note", "name": "pv " + hb(), "content": hb()}
+			d["generator"] = Doc{"type": "Application", "name": "gen " + hb()}
+			d["location"] = Doc{"type": "Place", "name": "place " + hb()}
+			d["tag"] = []any{Doc{"type": "Hashtag", "name": "#tag" + hb(), "href": "https://media.example/t/" + hb()}, Doc{"type": "Emoji", "name": ":e" + hb() + ":", "icon": Doc{"type": "Image", "url": "https://media.example/e.png"}}}
+			switch t.Draw(4) {
+			case 0:
+				delete(d, "content")
+			case 1:
+				d["content"] = ""
+			case 2:
+				delete(d, "content")
+				delete(d, "name")
+			}
+			if t.Chance(1, 2) {
+				d["mediaType"] = []string{"text/plain", "text/gemini", "text/markdown", "text/html"}[t.Draw(4)]
+			}
+			f.r.S.Probe("town_hostile_strings_under_unread_vocabulary")
+		}
 		if len(p.Authors) > 0 {
 			d["attributedTo"] = refs(p.Authors)
 		}
